@@ -83,7 +83,7 @@ Init ==
     /\ tabs = {} /\ nextWal = 2 /\ nextTab = 1
     /\ mem = [wal |-> 1, txs |-> {}] /\ imm = <<>> /\ q = <<>> /\ handles = {}
     /\ cm = [pc |-> "idle", t |-> 0, todo |-> {}]
-    /\ fl = [pc |-> "wait", item |-> 0, tab |-> 0, ins |-> {}]
+    /\ fl = [pc |-> "wait", item |-> 0, tab |-> 0, ins |-> {}, lvl |-> 0]
     /\ cl = Idle /\ rc = [pc |-> "idle", old |-> <<>>, pos |-> 0]
     /\ phase = "run" /\ nextTs = 1 /\ txw = <<>> /\ acked = {} /\ crashes = 0 /\ panic = ""
 
@@ -155,7 +155,11 @@ Rotate(next) ==
     /\ UNCHANGED <<tabs, nextTab, q, handles, fl, cl, rc, phase, nextTs, txw, acked, crashes, panic>>
 
 CmRotateMid == phase = "run" /\ cm.pc = "rotate-mid" /\ Rotate("enq-mid")
-CmRotate    == phase = "run" /\ cm.pc = "placed" /\ Cardinality(mem.txs) >= MemThreshold /\ Rotate("enq")
+\* MemThreshold = 0: the byte threshold of the code is not modelled, the environment decides
+\* (trace validation: the recorded run says whether the commit rotated)
+MustRotate == MemThreshold > 0 /\ Cardinality(mem.txs) >= MemThreshold
+MayRotate  == MustRotate \/ (MemThreshold = 0 /\ mem.txs # {})
+CmRotate    == phase = "run" /\ cm.pc = "placed" /\ MayRotate /\ Rotate("enq")
 
 CmEnqueue ==
     /\ phase = "run" /\ cm.pc \in {"enq", "enq-mid"}
@@ -165,7 +169,7 @@ CmEnqueue ==
     /\ UNCHANGED <<wals, tabs, nextWal, nextTab, mem, imm, handles, fl, cl, rc, phase, nextTs, txw, acked, crashes, panic, memrecs>>
 
 CmAck ==
-    /\ phase = "run" /\ (cm.pc = "ack" \/ (cm.pc = "placed" /\ Cardinality(mem.txs) < MemThreshold))
+    /\ phase = "run" /\ (cm.pc = "ack" \/ (cm.pc = "placed" /\ ~MustRotate))
     /\ acked' = acked \cup {cm.t}
     /\ cm' = [pc |-> "idle", t |-> 0, todo |-> {}]
     /\ UNCHANGED <<wals, tabs, nextWal, nextTab, mem, imm, q, handles, fl, cl, rc, phase, nextTs, txw, crashes, panic, memrecs>>
@@ -227,18 +231,30 @@ MergeRecs(S) == UNION {Tab(h).recs : h \in S}
 CpPcs == {"cp-create", "cp-write", "cp-sync", "cp-rename", "cp-remove", "cp-remove-first"}
 TabIds == {tb.id : tb \in tabs}
 
-\* the inputs are read into memory when the compaction starts
-CpDecide ==
-    /\ Running /\ fl.pc = "compact?"
-    /\ IF Cardinality(L0) > L0Target
-       THEN /\ fl' = [fl EXCEPT !.pc = IF BugDeleteInputsFirst THEN "cp-remove-first" ELSE "cp-create", !.ins = L0 \cup L1]
-            /\ cpbuf' = <<MergeTxs(L0 \cup L1), MergeRecs(L0 \cup L1)>>
-       ELSE fl' = [fl EXCEPT !.pc = "rmimm"] /\ UNCHANGED cpbuf
-    /\ UNCHANGED <<wals, tabs, nextWal, nextTab, mem, imm, q, handles, cm, cl, rc, phase, nextTs, txw, acked, crashes, panic, memrecs>>
+\* checkAndCompact is a loop: while some level is over its target, merge tables `ins` into one new
+\* table of level `lvl` (the inputs are read into memory when a compaction starts), then look again.
+\* L0Target > 0: two levels, the rule of the code for them (all of L0 and L1 when L0 is over its
+\* target).  L0Target = 0: sizes and key ranges are not modelled, the environment decides which
+\* tables are merged into which level (trace validation: the recorded run says so).
+CpChoices == IF L0Target > 0
+             THEN (IF Cardinality(L0) > L0Target THEN {<<L0 \cup L1, 1>>} ELSE {})
+             ELSE {<<ins, lvl>> : ins \in (SUBSET handles) \ {{}}, lvl \in 1..3}
+CpStop == L0Target = 0 \/ Cardinality(L0) <= L0Target
+CpUnch == UNCHANGED <<wals, tabs, nextWal, nextTab, mem, imm, q, handles, cm, cl, rc, phase, nextTs, txw, acked, crashes, panic, memrecs>>
+CpStart(ins, lvl) ==
+    /\ Running /\ fl.pc = "compact?" /\ ins # {} /\ ins \subseteq handles
+    /\ fl' = [fl EXCEPT !.pc = IF BugDeleteInputsFirst THEN "cp-remove-first" ELSE "cp-create", !.ins = ins, !.lvl = lvl]
+    /\ cpbuf' = <<MergeTxs(ins), MergeRecs(ins)>>
+    /\ CpUnch
+CpNoMore ==
+    /\ Running /\ fl.pc = "compact?" /\ CpStop
+    /\ fl' = [fl EXCEPT !.pc = "rmimm"] /\ UNCHANGED cpbuf
+    /\ CpUnch
+CpDecide == CpNoMore \/ \E c \in CpChoices : CpStart(c[1], c[2])
 
 CpSteps ==
     /\ Running
-    /\ \/ TbCreate("cp-create", "cp-write", 1, cpbuf[1], cpbuf[2]) /\ UNCHANGED <<handles, cpbuf>>
+    /\ \/ TbCreate("cp-create", "cp-write", fl.lvl, cpbuf[1], cpbuf[2]) /\ UNCHANGED <<handles, cpbuf>>
        \/ TbWrite("cp-write", "cp-sync") /\ UNCHANGED <<nextTab, handles, cpbuf>>
        \/ TbSync("cp-sync", "cp-rename") /\ UNCHANGED <<nextTab, handles, cpbuf>>
        \/ /\ TbRename("cp-rename", IF BugDeleteInputsFirst THEN "rmimm" ELSE "cp-remove")
@@ -248,14 +264,14 @@ CpSteps ==
           /\ \E h \in fl.ins \cap TabIds : tabs' = tabs \ {Tab(h)}
           /\ UNCHANGED <<nextTab, handles, fl, cpbuf>>
        \/ /\ fl.pc \in {"cp-remove", "cp-remove-first"} /\ fl.ins \cap TabIds = {}
-          /\ fl' = [fl EXCEPT !.pc = IF fl.pc = "cp-remove" THEN "rmimm" ELSE "cp-create"]
+          /\ fl' = [fl EXCEPT !.pc = IF fl.pc = "cp-remove" THEN "compact?" ELSE "cp-create"]
           /\ UNCHANGED <<tabs, nextTab, handles, cpbuf>>
     /\ UNCHANGED <<wals, nextWal, mem, imm, q, cm, cl, rc, phase, nextTs, txw, acked, crashes, panic, memrecs>>
 
 FlRemoveImm ==
     /\ Running /\ fl.pc = "rmimm"
     /\ imm' = SelectSeq(imm, LAMBDA x : x.wal # fl.item)
-    /\ fl' = [pc |-> "wait", item |-> 0, tab |-> 0, ins |-> {}]
+    /\ fl' = [pc |-> "wait", item |-> 0, tab |-> 0, ins |-> {}, lvl |-> 0]
     /\ UNCHANGED <<wals, tabs, nextWal, nextTab, mem, q, handles, cm, cl, rc, phase, nextTs, txw, acked, crashes, panic, memrecs, cpbuf>>
 
 \* ------------------------------------------------------------------ Close (db.go Close)
@@ -331,7 +347,7 @@ Crash ==
          tabs' = {IF tb.id \in lost THEN [tb EXCEPT !.data = FALSE] ELSE [tb EXCEPT !.synced = tb.data] : tb \in tabs}
     /\ mem' = [wal |-> 0, txs |-> {}] /\ memrecs' = {} /\ imm' = <<>> /\ q' = <<>> /\ handles' = {}
     /\ cm' = [pc |-> "idle", t |-> 0, todo |-> {}]
-    /\ fl' = [pc |-> "wait", item |-> 0, tab |-> 0, ins |-> {}]
+    /\ fl' = [pc |-> "wait", item |-> 0, tab |-> 0, ins |-> {}, lvl |-> 0]
     /\ cl' = Idle /\ cpbuf' = <<>>
     /\ rc' = [pc |-> "newwal", old |-> <<>>, pos |-> 0]
     /\ phase' = "rec"
